@@ -350,7 +350,28 @@ Templates(fam) == CASE fam = "memoT" -> MemoTemplates [] fam = "gapT" -> GapTemp
                     [] fam = "pratt" -> PrattTemplates [] fam = "prattP" -> PrattPTemplates [] fam = "rec" -> RecTemplates [] fam = "lrec" -> LRecTemplates [] fam = "repT" -> RepTemplates
 TemplateFams == {"rec", "lrec", "repT", "pratt", "prattP", "memoT", "rcvT", "lblT", "drpT", "txt", "txtc", "txtb", "txtr", "gapT", "gapTi", "rcvN", "stat", "rcvE"}
 
-Grammars == IF Fam \in TemplateFams THEN {g \in Templates(Fam) : Fam = "lrec" \/ WF(g)}
+(* Instrumentation (C01, C18): every node of a grammar is wrapped in probe(enter).ignore_then(node).then_ignore(   *)
+(* probe(exit)); a probe consumes nothing, never fails and logs (id, cursor, inspector state, context), so the   *)
+(* sequence of probe events shows which sub-parser was attempted where and how far each one got.  Probe ids       *)
+(* encode the node's path (children numbered 1..9) and enter / exit.                                               *)
+RECURSIVE PathNum(_)
+PathNum(path) == IF path = <<>> THEN 1 ELSE 10 * PathNum(Front(path)) + Last(path)
+Wrap(x, path) == <<"ithen", <<"probe", 2 * PathNum(path)>>, <<"theni", x, <<"probe", 2 * PathNum(path) + 1>>>>>>
+RECURSIVE Instr(_, _)
+InstrSeq(s, path) == [i \in DOMAIN s |-> Instr(s[i], Append(path, i))]
+Instr(g, path) ==
+  LET o == Op(g) IN
+  CASE o \in {"then", "ithen", "theni", "or", "andis"} -> Wrap(<<o, Instr(g[2], Append(path, 1)), Instr(g[3], Append(path, 2))>>, path)
+    [] o \in {"choice", "choicev"} -> Wrap(<<o, InstrSeq(g[2], path)>>, path)
+    [] o \in {"ornot", "not", "rewind", "ignored", "mw"} -> Wrap(<<o, Instr(g[2], Append(path, 1))>>, path)
+    [] o \in {"map", "to", "filter", "trymap"} -> Wrap(<<o, Instr(g[2], Append(path, 1)), g[3]>>, path)
+    [] o = "collect" /\ Op(g[2]) = "rep" -> Wrap(<<"collect", <<"rep", Instr(g[2][2], Append(path, 1)), g[2][3], g[2][4]>>, g[3]>>, path)
+    [] OTHER -> Wrap(g, path)
+InstrFams == {"pegI", "emitI"}
+BaseFam == IF Fam = "pegI" THEN "peg" ELSE "emit"
+
+Grammars == IF Fam \in InstrFams THEN {Instr(g, <<>>) : g \in {x \in UNION {GSz(BaseFam, n) : n \in 1..MaxSize} : WF(x)}}
+            ELSE IF Fam \in TemplateFams THEN {g \in Templates(Fam) : Fam = "lrec" \/ WF(g)}
             ELSE {g \in UNION {GSz(Fam, n) : n \in 1..MaxSize} : WF(g)}
 
 RECURSIVE InputSeqs(_)
